@@ -87,8 +87,9 @@ def generate(rng, tier):
         for _ in range(rng.choice([0, 1, 1, 2])):
             cert.append('cn:' + hx(variants(rng, expected).encode() if rng.random() < 0.8 else expected.encode()))
         ipterm = any(ab.startswith('ip:') for _, ab in terms)
+        otherterm = any(ab.startswith('other:') for _, ab in terms)
         for _ in range(rng.randrange(0, 5)):
-            kind = rng.choice(['dns', 'dns', 'dns', 'ip', 'uri', 'rid', 'other', 'other'] + (['ip'] * 6 if ipterm else []))
+            kind = rng.choice(['dns', 'dns', 'dns', 'ip', 'uri', 'rid', 'other', 'other'] + (['ip'] * 6 if ipterm else []) + (['other'] * 6 if otherterm else []))
             if kind == 'dns':
                 v = variants(rng, expected) if rng.random() < 0.75 else (ipaddr if rng.random() < 0.5 else expected)
                 b = v.encode()
@@ -103,8 +104,10 @@ def generate(rng, tier):
             elif kind == 'rid':
                 cert.append('rid:' + rng.choice(OIDS))
             else:
-                o = rng.choice([NAI, NAI, '1.2.3.4'])
-                v = realm_variants(rng, realm or 'example.org')
+                # type-ids: the NAIRealm one, the ones terms name, and one no term ever names; an otherName term must
+                # only be satisfied by an entry of ITS type-id, also among object identifiers OpenSSL has no name for
+                o = rng.choice([NAI, NAI, '1.2.3.4', '1.2.3.4', '1.3.6.1.4.1.25178.3', '1.3.6.1.4.1.55555.7.2'])
+                v = realm_variants(rng, realm or 'example.org') if rng.random() < 0.6 else rng.choice(['example.org', '*.example', 'test.local', 'xlocal'])
                 cert.append('other:%s:%s' % (o, hx(v.encode('latin-1'))))
         ops.append('op cert %s | %s' % (' '.join(conf), ' '.join(cert)))
     return [(cid, ['cfg nopipe'] + l) for cid, l in batch(ops, 'cert', 50)]
